@@ -24,10 +24,24 @@ structure AInv (R : Nat × Nat → Nat) (p : Pool) : Prop where
 theorem AInv.of_frame {R} {p q : Pool} (h : AInv R p) (hgv : gv q = gv p) (ht : q.tasks = p.tasks)
     (hr : ∀ t, t ∈ q.running → t ∈ p.running := by intro _ h; exact h)
     (hc : ∀ t, t ∈ q.cancelledR → t ∈ p.cancelledR := by intro _ h; exact h)
-    (he : ∀ t, t ∈ q.ended → t ∈ p.ended := by intro _ h; exact h) : AInv R q := by
+    (he : ∀ t, t ∈ q.ended → t ∈ p.ended := by intro _ h; exact h)
+    (hq : ∀ (m : Nat) (r : Req), p.reqs[m]? = some r → ∃ r' : Req, q.reqs[m]? = some r' ∧ r'.outcome = r.outcome := by
+      intro m r h; exact ⟨r, h, rfl⟩) : AInv R q := by
   obtain ⟨hg, _, hd, hrc⟩ := gv_fields hgv
   have hW := W_of_gv hgv R
-  refine ⟨⟨?_, ?_, ?_, ?_, ?_, ?_⟩, ?_, ?_⟩
+  refine ⟨⟨?_, ?_, ?_, ?_, ?_, ?_, ?regS, ?cmp⟩, ?_, ?_⟩
+  case regS =>
+    intro g G i m hG hc
+    rw [hg] at hG
+    obtain ⟨r, hr, hreg⟩ := h.pinv.regS g G i m hG hc
+    obtain ⟨r', hr', ho⟩ := hq m r hr
+    refine ⟨r', hr', fun hnone => ?_⟩
+    have e1 := rcb_eq q m r' hr'
+    have e2 := rcb_eq p m r hr
+    rw [← e1, congrFun hrc m, e2]
+    exact hreg (by rw [← ho]; exact hnone)
+  case cmp =>
+    intro g G; rw [hg]; exact h.pinv.cmp g G
   · intro g i; rw [hW, hg]; exact h.pinv.dom g i
   · intro g G; rw [hW, hg]; exact h.pinv.cnt g G
   · intro g G i t; rw [hg, ht]; exact h.pinv.reg g G i t
@@ -42,6 +56,11 @@ theorem AInv.of_frame {R} {p q : Pool} (h : AInv R p) (hgv : gv q = gv p) (ht : 
     · exact Or.inl (he t h1)
     · exact Or.inr (Or.inl (hc t h1))
     · exact Or.inr (Or.inr (hr t h1))
+
+/-- the requests rewritten one by one, outcomes kept -/
+theorem reqs_map_outcome (l : List Req) (f : Req → Req) (hf : ∀ r, (f r).outcome = r.outcome) (m : Nat) (r : Req)
+    (h : l[m]? = some r) : ∃ r' : Req, (l.map f)[m]? = some r' ∧ r'.outcome = r.outcome :=
+  ⟨f r, by rw [List.getElem?_map, h]; rfl, hf r⟩
 
 theorem OutFin.tame {p q : Pool} (h : OutFin p) (t : Tame p q) : OutFin q := by
   intro i k' hk' ho
@@ -100,6 +119,7 @@ theorem AInv.flushAfter1 {R} {p : Pool} (h : AInv R p) (a : Nat) (re : Bool) (o 
   · simp only
     have h1 : AInv R ({ p with metaCancelled := [], reqs := p.reqs.map fun (r : Req) => { r with inCancelled := false } } : Pool) :=
       h.of_frame (gv_mapReqs p (fun (r : Req) => { r with inCancelled := false }) (fun _ => ⟨rfl, rfl⟩) _ rfl rfl rfl rfl) rfl
+        (hq := reqs_map_outcome _ _ (fun _ => rfl))
     have h2 := h1.modApi a (fun x => { x with snapE := p.ended, snapC := p.cancelledR })
     have h3 := h2.gatherStart (p.ended.map Child.task ++ p.cancelledR.map Child.task) re a 0
       (valid_of_regs _ h2.rv _ (by
@@ -145,6 +165,7 @@ theorem AInv.flushStage1 {R} {p : Pool} (h : AInv R p) (hmc : MC p) (a : Nat) (r
       if r.inRunning && r.outcome.isSome then { r with inRunning := false } else r } : Pool) :=
     h.of_frame (gv_mapReqs p (fun (r : Req) => if r.inRunning && r.outcome.isSome then { r with inRunning := false } else r)
       (fun r => by split <;> exact ⟨rfl, rfl⟩) _ rfl rfl rfl rfl) rfl
+      (hq := reqs_map_outcome _ _ (fun r => by split <;> rfl))
   have h2 := h1.gatherStart
     (p.metaCancelled.map Child.spawner ++ (indicesWhere p.reqs fun r => r.inRunning && r.outcome.isSome).map Child.spawner)
     re a (p.metaCancelled.map Child.spawner ++ (indicesWhere p.reqs fun r => r.inRunning && r.outcome.isSome).map Child.spawner).length
@@ -179,6 +200,7 @@ theorem AInv.gacAfter1 {R} {p : Pool} (h : AInv R p) (a : Nat) (re : Bool) (g : 
         { r with inCancelled := false, inRunning := false } } : Pool) :=
       h.of_frame (gv_mapReqs p (fun (r : Req) => { r with inCancelled := false, inRunning := false })
         (fun _ => ⟨rfl, rfl⟩) _ rfl rfl rfl rfl) rfl
+        (hq := reqs_map_outcome _ _ (fun _ => rfl))
     have h3 := h1.gatherStart (p.ended.map Child.task ++ p.cancelledR.map Child.task ++ p.running.map Child.task) re a 0
       (valid_of_regs _ h1.rv _ (by
         intro t ht
